@@ -49,6 +49,11 @@ def run(ck):
                   "rule": "detection: {A: {f: x}, condition: A}\ntrue_positives: [!t {f: x}, 1]\ntrue_negatives: [!t {f: y}, [1]]", "_tp": [0, 1], "_tn": [0, 1]})
     cases.append({"k": "rule", "id": ck.new_id(), "sw": [0], "docs": [], "validate": True, "vsw": [0, 15],
                   "rule": rule_text({"A": {"f": "x"}, "condition": "A"}, [1], []), "_tp": [1], "_tn": []})
+    # tagged VALUES inside example documents (scalars, nested mappings, sequence elements)
+    cases.append({"k": "rule", "id": ck.new_id(), "sw": [0], "docs": [], "validate": True, "vsw": [0, 15],
+                  "rule": "detection: {A: {f: x, n: {g: y}}, B: {h: '*z*'}, condition: A or B}\n"
+                          "true_positives: [{f: !t x, n: !u {g: !v y}}, {h: [!w az, b]}, {f: x, n: [!t {g: y}]}]\n"
+                          "true_negatives: [{f: !t y}, {h: !t [q]}, {n: !t 5}]", "_tp": [0, 1, 2], "_tn": [0, 1, 2]})
     send = rulebase.wire(cases)
     impl, model, _ = lib.run_cases(send, "C13")
     direct_failed = set()
